@@ -14,8 +14,9 @@ quantified; bodies and conditions are arbitrary functions, so nesting is covered
   `scan_stacked_extent`   the stacked output has extent = trip count (0 for the empty scan)
 * `cond_scheme`, `switch2_scheme`   `If(idx≠0, then = branches[1], else = branches[0])` = `branches[idx]`
 * `reject_iff_unsupported` the plugins accept exactly the variants whose scheme is proved here
-* `cond_before_body_differs`, `swapped_branches_differ`, `off_by_one_trip_differs`  the schemes are
-  tight: the three classic mis-wirings give different results (so the tie can tell them apart)
+* `cond_before_body_differs`, `batched_pred_on_raw_differs`, `swapped_branches_differ`,
+  `off_by_one_trip_differs`  the schemes are tight: the classic mis-wirings give different results
+  (so the tie can tell them apart)
 -/
 import J2O.Lemmas.C06
 set_option linter.unusedVariables false
@@ -211,6 +212,26 @@ example : accepts { construct := .cond, nBranches := 3 } = false := by decide
 theorem cond_before_body_differs :
     (loopO 10 true (fun _ _ (s : Nat) => (decide (s < 3), s + 1, ())) 0).1
       ≠ whileScheme 10 (fun s => decide (s < 3)) (· + 1) 0 := by decide
+
+/-- vmapped while with the per-lane predicate evaluated on the RAW body results instead of on the masked
+    next state (a finished lane is re-activated when the body of its final state satisfies the
+    condition again) -/
+def whileBatchedRawPred {τ : Type u} (M : Nat) (c : τ → Bool) (b : τ → τ) (s0 : List τ) : List τ :=
+  (loopO M ((s0.map c).any id)
+    (fun _ _ (st : List Bool × List τ) =>
+      let new := (st.1.zip st.2).map fun ps => if ps.1 then b ps.2 else ps.2
+      let pred := (st.2.map b).map c          -- on the un-masked candidates
+      (pred.any id, (pred, new), ()))
+    (s0.map c, s0)).1.2
+
+/-- … is a different loop as soon as the exit predicate is not monotone and lanes leave at different
+    trips (exit when `v % 4 = 3`, lanes 3 and 0): the proved scheme freezes lane 0 at 3, the
+    mis-wired one re-activates it. -/
+theorem batched_pred_on_raw_differs :
+    whileBatchedRawPred 24 (fun v : Nat => decide (v % 4 ≠ 3)) (· + 1) [3, 0]
+      ≠ whileBatchedScheme 24 (fun v : Nat => decide (v % 4 ≠ 3)) (· + 1) [3, 0] := by decide
+
+example : whileBatchedScheme 24 (fun v : Nat => decide (v % 4 ≠ 3)) (· + 1) [3, 0] = [3, 3] := by decide
 
 /-- swapping `then` and `else` is a different conditional -/
 theorem swapped_branches_differ :
